@@ -157,6 +157,38 @@ def _specialise(body: list[ast.stmt], env: dict[str, ast.expr], tables: dict[str
                 return node.body if node.test.value else node.orelse
             return node
 
+        def visit_Compare(self, node: ast.Compare):
+            self.generic_visit(node)
+            if len(node.ops) != 1 or not isinstance(node.left, ast.Constant):
+                return node
+            op_, rhs_ = node.ops[0], node.comparators[0]
+            if isinstance(rhs_, ast.Constant) and isinstance(op_, (ast.Eq, ast.NotEq, ast.Is, ast.IsNot)):
+                eq = node.left.value == rhs_.value
+                return ast.copy_location(ast.Constant(eq if isinstance(op_, (ast.Eq, ast.Is)) else not eq), node)
+            if isinstance(op_, (ast.In, ast.NotIn)):
+                keys = None
+                if isinstance(rhs_, ast.Name) and rhs_.id in tables:
+                    keys = set(tables[rhs_.id])
+                elif isinstance(rhs_, (ast.Tuple, ast.List, ast.Set)) and all(isinstance(e, ast.Constant) for e in rhs_.elts):
+                    keys = {e.value for e in rhs_.elts}  # type: ignore[attr-defined]
+                if keys is not None:
+                    member = node.left.value in keys
+                    return ast.copy_location(ast.Constant(member if isinstance(op_, ast.In) else not member), node)
+            return node
+
+        def visit_UnaryOp(self, node: ast.UnaryOp):
+            self.generic_visit(node)
+            if isinstance(node.op, ast.Not) and isinstance(node.operand, ast.Constant) and isinstance(node.operand.value, bool):
+                return ast.copy_location(ast.Constant(not node.operand.value), node)
+            return node
+
+        def visit_BoolOp(self, node: ast.BoolOp):
+            self.generic_visit(node)
+            if all(isinstance(v, ast.Constant) and isinstance(v.value, bool) for v in node.values):
+                vs = [v.value for v in node.values]  # type: ignore[attr-defined]
+                return ast.copy_location(ast.Constant(all(vs) if isinstance(node.op, ast.And) else any(vs)), node)
+            return node
+
     def run(stmts: list[ast.stmt]) -> list[ast.stmt]:
         out: list[ast.stmt] = []
         for st in stmts:
@@ -197,6 +229,38 @@ def _cases(fn: ast.AST, module_assigns: dict[str, ast.AST] | None = None) -> dic
                     out[key] = _specialise(c.body, {c.pattern.name: ast.Constant(key)}, {tname: table})
             else:
                 raise AnalysisError(f"case `{unparse(c.pattern)}`{' if ' + unparse(c.guard) if c.guard is not None else ''} of the predicate dispatch is not a literal predicate number (nor a guarded lookup in a literal table)")
+    if out:
+        return out
+    # no match statement: an if-chain on the predicate (possibly through a literal table).  Specialise it for every
+    # predicate number: the statements left after folding the tests are that predicate's case.
+    pred_names = {"op.predicate.value.data"}
+    for st in walk_local(fn):
+        if isinstance(st, ast.Assign) and len(st.targets) == 1 and isinstance(st.targets[0], ast.Name) and unparse(st.value) == "op.predicate.value.data":
+            pred_names.add(st.targets[0].id)
+    chain = [st for st in getattr(fn, "body", []) if isinstance(st, ast.If) and any(unparse(x) in pred_names for x in ast.walk(st.test))]
+    if len(chain) != 1:
+        return out
+    tables = {}
+    for tname, d_ in module_assigns.items():
+        if isinstance(d_, ast.Dict) and d_.keys and all(isinstance(k_, ast.Constant) and isinstance(k_.value, int) for k_ in d_.keys):
+            tables[tname] = {k_.value: v_ for k_, v_ in zip(d_.keys, d_.values)}  # type: ignore[union-attr]
+    import copy
+
+    class P(ast.NodeTransformer):
+        def __init__(self, k):
+            self.k = k
+
+        def visit_Attribute(self, node: ast.Attribute):
+            if unparse(node) == "op.predicate.value.data":
+                return ast.copy_location(ast.Constant(self.k), node)
+            return self.generic_visit(node)
+
+    for k in range(0, 32):
+        body = _specialise([P(k).visit(copy.deepcopy(chain[0]))], {n_: ast.Constant(k) for n_ in pred_names if n_.isidentifier()}, tables)
+        if any(isinstance(st, ast.If) for st in body):
+            out["_undecided"] = out.get("_undecided", []) + [k]  # type: ignore[index]
+        elif body and not any(isinstance(x, ast.Raise) for st in body for x in ast.walk(st)):
+            out[k] = body
     return out
 
 
@@ -248,6 +312,8 @@ def check_cmp(idx: Index, rep: Report) -> None:
         kind = "cmpi" if "Cmpi" in q else "cmpf"
         for k, mn in enumerate(names):
             inst = f"{kind}:{k}:{mn}"
+            if k not in cases and (not any(isinstance(k_, int) for k_ in cases) or k in cases.get("_undecided", [])):
+                raise AnalysisError(f"{f.fq}: the dispatch on the predicate was not recognised (no case found for predicate {k})")
             if k not in cases:
                 r.fail(inst, Finding("C22.R2", f.fq, f"{kind}-unimplemented:{mn}", f"predicate {k} ({mn}) is not lowered (NotImplementedError)", f.loc))
                 continue
